@@ -132,7 +132,7 @@ def rand_graph(rng, derived, base, cyclic):
     for i, k in enumerate(order):
         cand = order[:i]
         ds = [a for a in cand if rng.random() < 0.45]
-        ds += [b for b in base if rng.random() < 0.4]
+        ds += [b for b in base if b not in derived and rng.random() < 0.4]     # (a base key that is redefined counts as a derived key)
         rng.shuffle(ds)
         deps[k] = ds
     if cyclic and len(order) >= 2:
@@ -149,6 +149,11 @@ def gen_call(rng):
     base = rng.sample(['a', 'b', 'c'], rng.choice([0, 1, 2, 3]))
     env = {k: rng.randrange(-3, 6) for k in base}
     derived = rng.sample(['p', 'q', 'r', 's', 't', 'u'], rng.choice([0, 1, 2, 2, 3, 3, 4, 5, 6]))
+    if base and derived and rng.random() < 0.35:
+        # a callable may REDEFINE a key the mapping already holds; its dependents must then wait for the new value
+        for b in rng.sample(base, rng.choice([1, min(2, len(base))])):
+            derived[rng.randrange(len(derived))] = b
+        derived = list(dict.fromkeys(derived))
     r = rng.random()
     kind = 'cyclic' if r < 0.2 and len(derived) >= 2 else 'missing-arg' if r < 0.28 and derived else 'acyclic'
     deps = rand_graph(rng, derived, base, kind == 'cyclic')
@@ -157,7 +162,8 @@ def gen_call(rng):
         deps[k] = deps[k] + ['nokey']
     kws = [(k, (rng.randrange(-2, 4), deps[k])) for k in derived]
     for k in rng.sample(['a', 'b', 'c', 'w'], rng.choice([0, 0, 1, 2])):          # constants, some overriding base keys
-        kws.append((k, rng.randrange(10, 14)))
+        if k not in derived:
+            kws.append((k, rng.randrange(10, 14)))
     rng.shuffle(kws)
     return dict(tag='call-' + kind, lines=[call_line(env, kws)])
 
